@@ -463,7 +463,7 @@ def _lean_kind(k, enums):
 
 def emit_lean(tab: dict) -> str:
     L = []
-    L.append("/- GENERATED by harness/ekw/c17_translate.py from src/cascade/shm/api.py -- do not edit.")
+    L.append("/- GENERATED by harness/ekw/c17_translate.py from src/cascade/shm/api.py (+ the receive buffers of shm/server.py, shm/client.py) -- do not edit.")
     L.append("   Regenerated on every run of `./check C17`; Props/C17.lean proves `SchemaOK shmApi` by `decide`. -/")
     L.append("import EkwVerif.Model.Codec")
     L.append("")
@@ -517,12 +517,40 @@ def emit_lean(tab: dict) -> str:
     L.append(",\n".join(rows))
     L.append("]")
     L.append("")
+    if "server_recv" in tab:
+        L.append("/-- shm/server.py: `self.sock.recvfrom(N)` -- the buffer a request datagram is received into -/")
+        L.append(f"def shmServerRecv : Nat := {tab['server_recv']}")
+        L.append("/-- shm/client.py: `sock.recv(N)` -- the buffer a response datagram is received into -/")
+        L.append(f"def shmClientRecv : Nat := {tab['client_recv']}")
+        L.append("")
     L.append("end EkwVerif.Gen")
     return "\n".join(L) + "\n"
 
 
+def parse_recv_limit(src: str, method: str, where: str) -> int:
+    """The receive buffer of one side of the datagram transport: the file must contain exactly ONE call `<socket>.<method>(N)`
+    with an integer literal N (shm/server.py: recvfrom, shm/client.py: recv). Anything else (several receives, a computed size)
+    is not the one-datagram-per-message transport the model describes -> Unrecognised."""
+    tree = ast.parse(src)
+    found = []
+    for node in ast.walk(tree):
+        if isinstance(node, ast.Call) and isinstance(node.func, ast.Attribute) and node.func.attr in ("recv", "recvfrom", "recv_into", "recvfrom_into", "recvmsg"):
+            found.append(node)
+    if len(found) != 1 or found[0].func.attr != method:
+        raise Unrecognised(f"{where}: expected exactly one socket receive, a call .{method}(N); found "
+                           + ", ".join(f"line {n.lineno}: {ast.unparse(n)}" for n in found))
+    call = found[0]
+    if len(call.args) != 1 or call.keywords or not (isinstance(call.args[0], ast.Constant) and type(call.args[0].value) is int):
+        raise Unrecognised(f"{where}:{call.lineno}: receive buffer is not an integer literal: {ast.unparse(call)}")
+    return call.args[0].value
+
+
 def translate_file(api_path, out_path) -> dict:
+    import os.path
     tab = parse_api(open(api_path).read())
+    d = os.path.dirname(str(api_path))
+    tab["server_recv"] = parse_recv_limit(open(os.path.join(d, "server.py")).read(), "recvfrom", "shm/server.py")
+    tab["client_recv"] = parse_recv_limit(open(os.path.join(d, "client.py")).read(), "recv", "shm/client.py")
     text = emit_lean(tab)
     try:
         old = open(out_path).read()
